@@ -136,7 +136,7 @@ func Run(rep *hx.Report, props Props, tier string, sh hx.Shard, deadline time.Ti
 	if thorough {
 		ms = []uint64{4, 5, 7, 8, 9, 16}
 	}
-	rep.Bound += fmt.Sprintf("; S2a: M in %v all forms x all field pairs x all (R,W) (40 pairs for M=16) x 3 dense backgrounds", ms)
+	rep.Bound += fmt.Sprintf("; S2a: M in %v all forms x all field pairs x all (R,W) (40 pairs for M=16) x 3 dense backgrounds, PC at the last two cells (thorough: also the first)", ms)
 	for _, M := range ms {
 		var lim [][2]uint64
 		if M <= 9 {
@@ -155,9 +155,11 @@ func Run(rep *hx.Report, props Props, tier string, sh hx.Shard, deadline time.Ti
 			lim = lim[:40]
 		}
 		bgs := [][]g.Instruction{Background(0, M), Background(1, M), Background(2, M)}
-		pcsM := []uint64{M - 2}
+		// quick: the last two cells (a skip or a fall-through from either wraps
+		// past the end of the core); thorough adds the first cell
+		pcsM := []uint64{M - 2, M - 1}
 		if thorough && M <= 8 {
-			pcsM = []uint64{0, M - 1}
+			pcsM = []uint64{0, M - 2, M - 1}
 		}
 		st := &State{M: M, P: 2, Core: make([]g.Instruction, M)}
 		for f := 0; f < hx.NForms; f++ {
@@ -174,7 +176,10 @@ func Run(rep *hx.Report, props Props, tier string, sh hx.Shard, deadline time.Ti
 					for a := uint64(0); a < M; a++ {
 						for b := uint64(0); b < M; b++ {
 							st.Core[pc] = hx.Mk(f, a, b)
-							for _, l := range lim {
+							for li, l := range lim {
+								if !thorough && pc == M-1 && li%5 != 0 && !(l[0] == M && l[1] == M) {
+									continue // quick: the second PC with a fifth of the limit pairs
+								}
 								st.R, st.W = l[0], l[1]
 								ck.Check(st)
 							}
